@@ -3,7 +3,7 @@ CONSTANTS
   MaxLen = 4
   Alphabet = {0, 1}
   SubValsP = {5, 1}
-  GapsP = {2, 1}
+  GapsP = {0, 2, 1}
 INVARIANT DPIsOptimal
 INVARIANT Attained
 CHECK_DEADLOCK FALSE
